@@ -18,6 +18,8 @@ def norm(r):
     """Mode/sanitizer independent view of a response."""
     v = ev.variant(r)
     if v != "Ok":
+        if isinstance(r.get("panic"), dict) and str(r["panic"].get("msg", "")).startswith("harness:"):
+            return ("HARNESS-PANIC", r["panic"]["msg"][:120])      # the driver's own problem, never a verdict
         return (v,)
     ok = r["ok"]
     out = ["Ok"]
@@ -108,6 +110,9 @@ def compare(ctx, label, prop, base_views, views, reqs):
             # busy_drop depends on scheduling
             if reqs[i].get("final") == "busy_drop":
                 continue
+            if "HARNESS-PANIC" in (a[:1] + b[:1]):
+                ctx.inconc(f"{label}: request {i} ({reqs[i]['op']}): the driver itself failed: {(a if a[0] == 'HARNESS-PANIC' else b)[1]}")
+                break
             bad += 1
             ctx.violation(f"sanitizer-replay|{label}|result-differs|{reqs[i]['op']}",
                           f"{label}: request {i} ({reqs[i]['op']}) gives {str(b)[:120]} but the release build gives {str(a)[:120]}",
@@ -194,10 +199,11 @@ def miri(ctx, variant, reqs_for, workdir, label, many_seeds=None):
             f.write(json.dumps(q) + "\n")
     env = build.build_env(variant)
     flags = "-Zmiri-disable-isolation -Zmiri-ignore-leaks" if variant == "miri-tok" else "-Zmiri-disable-isolation"
-    env["MIRIFLAGS"] = flags
-    env["CV_OUT_DIR"] = os.path.join(workdir, f"{label}-miri")
-    env["CV_TOKIO_WORKERS"] = "1"
-    cmd = build.cargo_cmd(variant, "run") + ["--", "run", script, out]
+    # cargo-miri hands the interpreted program the environment of its BUILD step, not of this run: parameters travel
+    # as arguments or through -Zmiri-env-set
+    outdir = os.path.join(workdir, f"{label}-miri")
+    env["MIRIFLAGS"] = flags + f" -Zmiri-env-set=CV_TOKIO_WORKERS=1 -Zmiri-env-set=CV_OUT_DIR={outdir}"
+    cmd = build.cargo_cmd(variant, "run") + ["--", "run", script, out, outdir]
     t0 = time.time()
     try:
         p = subprocess.run(cmd, cwd=cd, env=env, stdout=subprocess.PIPE, stderr=subprocess.PIPE, timeout=3000)
